@@ -30,8 +30,13 @@
 (*               an election, FSM goroutine behind)                        *)
 (*   F7 = FALSE  idealised: every committed entry the node holds           *)
 (* With F7 = TRUE TLC finds the double application of an acknowledged      *)
-(* post (DESIGN section 7, row F7); the real binaries decide whether that  *)
-(* is a defect of the code (checks/c05.py, scenario "f7").                 *)
+(* post in two shapes, both reproduced on the real binaries by             *)
+(* checks/c05.py:                                                          *)
+(*   Cluster_f7.cfg   a retry reaches a NEW leader before that node        *)
+(*                    applied the first, committed copy (DESIGN 7, F7)     *)
+(*   Cluster_f7b.cfg  a request the client gave up on (variable `old`) and *)
+(*                    its retry are both handled by ONE leader before      *)
+(*                    either copy is applied (F7b)                         *)
 (***************************************************************************)
 EXTENDS Integers, Sequences, FiniteSets, TLC, Json, ClusterProps
 
